@@ -18,11 +18,10 @@ and the interpreter remembers which `(ctrl_path, arg_rec, enable_sig)` tuple of
 
 from __future__ import annotations
 
-from dataclasses import dataclass, field
+from dataclasses import dataclass
 from typing import Any, Optional
 
 from amaranth import *  # noqa: F403
-from amaranth.hdl import Fragment
 
 from transactron import Method, Methods, Transaction, TModule, def_method, Priority
 from transactron.core.body import Body
